@@ -27,6 +27,9 @@ type LifeScenario struct {
 	Clients []ClientSpec   `json:"clients"`
 	// Cancels: some controller cancels a serving context (connections may be cut at any time).
 	Cancels bool `json:"cancels,omitempty"`
+	// Stalled: the kernel injects stalls (Config.StallPct): oracles that rely on
+	// code taking no simulated time are not evaluated.
+	Stalled bool `json:"stalled,omitempty"`
 
 	svc     *varlink.Service
 	ctxs    []context.Context
@@ -307,7 +310,24 @@ func (s *LifeScenario) Check(k *sim.Kernel) []sim.Violation {
 	for ci, cs := range s.Clients {
 		key := sf("client%d", ci)
 		conn := conns[ci]
-		if cs.MustServe && (conn == nil || conn.AcceptSeq == 0) && quiet {
+		// an obligation holds only if nobody asked the round the client aims at to
+		// stop (a janitor call aimed at the previous round may land in it late)
+		target := 0
+		if strings.Contains(cs.Wait, "serve.return:1") {
+			target = 1
+		}
+		obliged := cs.MustServe && !s.Stalled && target < len(rounds)
+		if obliged {
+			rd := rounds[target]
+			upto := ^uint64(0)
+			if rd.returned {
+				upto = rd.retSeq
+			}
+			if shutdownOverlaps(shutdowns, rd.startSeq, upto) {
+				obliged = false
+			}
+		}
+		if obliged && (conn == nil || conn.AcceptSeq == 0) && quiet {
 			why := "its dial was refused or never happened"
 			if conn != nil {
 				why = sf("it connected to listener L%d at seq %d but was never accepted", conn.Lis.ID, conn.DialSeq)
@@ -319,7 +339,7 @@ func (s *LifeScenario) Check(k *sim.Kernel) []sim.Violation {
 			continue
 		}
 		// an accepted connection is served to its end, whatever happens to the listener
-		faulted := cs.End != "close" || cs.NoRead || s.Cancels || cs.HoldUs > 0
+		faulted := cs.End != "close" || cs.NoRead || s.Cancels || cs.HoldUs > 0 || s.Stalled
 		out = append(out, checkClientConn(key, s.Service, s.Scripts, cs, conn, perClient[ci], faulted, true, s.Cancels)...)
 	}
 
@@ -385,6 +405,10 @@ func (s *LifeScenario) Check(k *sim.Kernel) []sim.Violation {
 				how = "timeout"
 			}
 			out = append(out, vio("endpoint-released", "listener-open-after-return "+how, "round %d returned %q at seq %d but its listener L%d is still open (close seq %d): later clients connect to a service that is gone and the address cannot be bound again", rd.idx, rd.retErr, rd.retSeq, l.ID, l.CloseSeq))
+		}
+		// ---- the serving call gives up its listener by itself (timeout return) only when no accepted connection is open
+		if l.ClosedBy == serveTask && l.OpenAtClose > 0 && rd.retErr == "timeout" {
+			out = append(out, vio("timeout", "timeout-with-open-connection", "round %d (timeout %v) decided to stop on an idle timeout and closed listener L%d at seq %d while %d accepted connection(s) were still open", rd.idx, time.Duration(spec.TimeoutNs), l.ID, l.CloseSeq, l.OpenAtClose))
 		}
 		// ---- nil-return rule
 		if l.ClosedWhileAccepting {
@@ -453,6 +477,9 @@ func (s *LifeScenario) Check(k *sim.Kernel) []sim.Violation {
 				out = append(out, vio("timeout", "timeout-without-timeout", "round %d was started without idle timeout but returned the timeout error", rd.idx))
 				break
 			}
+			if s.Stalled {
+				break
+			}
 			if lastNew >= 0 && rd.retAt < lastNew+to {
 				out = append(out, vio("timeout", "timeout-too-early", "round %d (timeout %v) returned the timeout error at %v, but the last new connection (or the start of serving) was at %v: only %v without a new connection", rd.idx, to, rd.retAt, lastNew, rd.retAt-lastNew))
 			}
@@ -482,6 +509,45 @@ func (s *LifeScenario) Check(k *sim.Kernel) []sim.Violation {
 			}
 			if onlyJanitor {
 				out = append(out, vio("timeout", "timeout-never-fired", "round %d (timeout %v) was idle (every client gone, two quiescent points) and did not stop by itself; the janitor had to shut it down; it returned %q", rd.idx, to, rd.retErr))
+			}
+		}
+	}
+	// ---- a cancelled serving context ends the connections of that round: their
+	// server ends are closed by the service, not only once the client goes away
+	for _, e := range k.Log {
+		if e.Kind != "cancel" || !quiet {
+			continue
+		}
+		r := atoi(e.Data)
+		if r >= len(rounds) || rounds[r].lis == nil {
+			continue
+		}
+		for ci, cs := range s.Clients {
+			c := conns[ci]
+			if c == nil || c.Lis != rounds[r].lis || c.AcceptSeq == 0 || c.AcceptSeq > e.Seq {
+				continue
+			}
+			if cs.End != "close" || cs.HoldUs > 0 || c.Client.CloseSeq < e.Seq {
+				continue // the client went away by itself, possibly first
+			}
+			// the cancellation must have had a full quiet point to take effect
+			// before the one at which the client was let go
+			settled := false
+			for _, q := range k.QuiesceSeqs {
+				if q > e.Seq && q < c.Client.CloseSeq {
+					for _, q2 := range k.QuiesceSeqs {
+						if q2 > q && q2 <= c.Client.CloseSeq {
+							settled = true
+						}
+					}
+				}
+			}
+			if !settled {
+				continue
+			}
+			if !c.Server.Closed || c.Server.CloseSeq > c.Client.CloseSeq {
+				out = append(out, vio("cancel-ends-connections", "connection-survives-cancel", "round %d: its context was cancelled at seq %d but the server end of accepted connection c%d was still open when the client finally closed (seq %d) at a quiet point", r, e.Seq, c.ID, c.Client.CloseSeq))
+				break
 			}
 		}
 	}
@@ -561,6 +627,12 @@ func (s *LifeScenario) Shrinks() []Scenario {
 	for i := range s.Clients {
 		c := s.clone()
 		c.Clients = append(c.Clients[:i], c.Clients[i+1:]...)
+		// the obligation of a late client may rest on the connection that is dropped
+		for j := range c.Clients {
+			if c.Clients[j].StartUs > 0 {
+				c.Clients[j].MustServe = false
+			}
+		}
 		add(c)
 	}
 	for i := range s.Ctl {
@@ -573,6 +645,12 @@ func (s *LifeScenario) Shrinks() []Scenario {
 	if len(s.Rounds) > 1 {
 		c := s.clone()
 		c.Rounds = c.Rounds[:len(c.Rounds)-1]
+		// obligations of clients that wait for a later round go with it
+		for i := range c.Clients {
+			if strings.Contains(c.Clients[i].Wait, "serve.return") {
+				c.Clients[i].MustServe = false
+			}
+		}
 		add(c)
 	}
 	for i := range s.Clients {
@@ -870,6 +948,49 @@ func genC15(seed uint64, tier string) Scenario {
 			cs.End = g.Pick("abort", "close-now", "close")
 		}
 		s.Clients = append(s.Clients, cs)
+	}
+	// the second round has obligations of its own: whatever the first left behind
+	// (a Shutdown with a connection still open, say) must not make it stop while
+	// a connection is open
+	if nRounds == 2 && s.Rounds[1].TimeoutNs > 0 && g.Pct(60) {
+		to1 := int(s.Rounds[1].TimeoutNs / 1000)
+		h := genLifeClient(g, s, &cid, true)
+		h.Cuts, h.PauseUs = nil, nil
+		h.Wait = "ev:serve.return:1,bound"
+		h.MustServe = !scripted // a scripted Shutdown with a relative trigger may land in this round
+		s.Clients = append(s.Clients, h)
+		l := genLifeClient(g, s, &cid, true)
+		l.Wait = "ev:serve.return:1,bound"
+		l.StartUs = 1 + to1 + g.IntN(3*to1+1)
+		l.MustServe = !scripted
+		s.Clients = append(s.Clients, l)
+		immediate := false
+		for _, c := range s.Clients {
+			if c.Wait == "" && c.StartUs == 0 {
+				immediate = true // accepted in round 0 for certain: the Shutdown below lands there
+			}
+		}
+		if g.Pct(50) && !scripted && immediate {
+			// end round 0 by a Shutdown that finds a connection open
+			// (absolute count: the connection may already be accepted when the controller starts waiting)
+			s.Ctl[0] = append(s.Ctl[0], CtlOp{Wait: "accepted:1", Op: "shutdown"})
+			for i := range s.Clients {
+				if s.Clients[i].Wait == "" {
+					s.Clients[i].MustServe = false
+				}
+			}
+		}
+	}
+	if g.Pct(15) {
+		s.Config.StallPct = 1 + g.IntN(3)
+		s.Stalled = true
+		// a stall may jump hours: generous reply deadlines would expire mid-write
+		for cid, sc := range s.Scripts {
+			for i := range sc.Actions {
+				sc.Actions[i].DeadlineUs = 0
+			}
+			s.Scripts[cid] = sc
+		}
 	}
 	return s
 }
